@@ -12,6 +12,8 @@ import LalModel.Model.Bits
       read leaves the field 0;
     * width/height are uint32 arithmetic.
 
+  `parseSps` additionally follows the `fix:` commit of branch w-C05 (a panic of the bit reader is recovered and
+  returned as an error; `parseSpsWith` is the function without that `defer`).
   The model follows the tree with the two `fix:` commits of branch w-C19 (S21): `nal2rbsp` before
   bit-parsing, crop units from chroma_format_idc and frame_mbs_only_flag, profile_idc 135 in the
   high-profile list. The pinned behaviour is kept as `Variant.pinned` so that the witnesses of the
@@ -296,6 +298,13 @@ def parseSpsWith (v : Variant) (payload : Bytes) : GoM Context :=
       .ok { profile := st'.sps.profileIdc, level := st'.sps.levelIdc,
             width := widthOf v.cropByChroma st'.sps, height := heightOf v.cropByChroma st'.sps, sps := st'.sps }
 
-def parseSps : Bytes → GoM Context := parseSpsWith Variant.fixed
+/-- `defer func() { if recover() != nil { err = ErrAvc } }()` (the `fix:` commit of branch w-C05): a run-time
+    failure inside the bit reader (nazabits' `ReadBits32(0)` at the end of the buffer) is returned as an error -/
+def recoverErr {α} : GoM α → GoM α
+  | .error (.panic _) => .error .err
+  | r => r
+
+/-- `avc.ParseSps` of the fixed tree -/
+def parseSps (payload : Bytes) : GoM Context := recoverErr (parseSpsWith Variant.fixed payload)
 
 end Lal.Sps
